@@ -34,6 +34,9 @@ pub struct Spec {
     pub rule_trap: bool,
     /// order in which the files of the link directory are created
     pub creation_order: Vec<u8>,
+    /// an artifact recorded with two digest algorithms that agree on one and differ on the other, tied by MATCH + DISALLOW
+    #[serde(default)]
+    pub two_digest_match: bool,
 }
 
 pub fn verify_dir_once(dir: &std::path::Path) -> serde_json::Value {
@@ -119,6 +122,19 @@ fn build(spec: &Spec) -> Option<World> {
         }
         w.links.push(f);
     }
+    if spec.two_digest_match {
+        let name = w.layout.steps[i].name.clone();
+        let m: Digests = [("sha256".to_string(), DIGEST_POOL_256[0].to_string()), ("sha512".to_string(), DIGEST_POOL_512[0].to_string())].into();
+        let p: Digests = [("sha256".to_string(), DIGEST_POOL_256[0].to_string()), ("sha512".to_string(), DIGEST_POOL_512[1].to_string())].into();
+        for f in w.links.iter_mut().filter(|f| f.step == name) {
+            if let Body::Link { link, .. } = &mut f.body {
+                link.materials.insert("md".into(), m.clone());
+                link.products.insert("md".into(), p.clone());
+            }
+        }
+        w.layout.steps[i].expected_products.insert(0, RuleSpec::Disallow("md".into()));
+        w.layout.steps[i].expected_products.insert(0, RuleSpec::Match { pattern: "md".into(), in_src: None, products: false, in_dst: None, from: name });
+    }
     if spec.rule_trap {
         w.layout.steps[i].expected_products.insert(0, RuleSpec::Disallow("variant-*".into()));
         w.layout.steps[i].expected_materials.insert(0, RuleSpec::Disallow("variant-*".into()));
@@ -138,7 +154,7 @@ impl Property for C13 {
     fn rule() -> String {
         "Generated: valid worlds in which one step gets threshold <= 1 and 2-4 validly signed, authorised links that differ (extra product, \
          extra material, other digest, or only command/byproducts), optionally with a rule (DISALLOW variant-*) that only some of them \
-         violate; the files of the link directory are created in a generated order. Oracle (invariant over repetitions): R in-process \
+         violate, or with an artifact recorded under two digest algorithms that agree on one and differ on the other, tied by MATCH + DISALLOW; the files of the link directory are created in a generated order. Oracle (invariant over repetitions): R in-process \
          repetitions (every HashMap gets fresh hash keys) and P fresh processes give the same verdict and, on success, the same summary \
          link as a JSON value. R=16,P=2 quick (miss probability for a fair flip 2^-17); R=64,P=8 thorough. Non-trivial: at least two counted \
          links of one step differ; distinct by (layout shape, variants, rule trap, step position)."
@@ -158,8 +174,9 @@ impl Property for C13 {
             proptest::collection::vec(prop_oneof![Just(Variation::ExtraProduct), Just(Variation::OtherDigest), Just(Variation::OtherByproducts), Just(Variation::ExtraMaterial)], 1..4),
             any::<bool>(),
             proptest::collection::vec(any::<u8>(), 0..6),
+            prop_oneof![3 => Just(false), 1 => Just(true)],
         )
-            .prop_map(|((world, owners), step, variants, rule_trap, creation_order)| Spec { world, owners, step, variants, rule_trap, creation_order })
+            .prop_map(|((world, owners), step, variants, rule_trap, creation_order, two_digest_match)| Spec { world, owners, step, variants, rule_trap, creation_order, two_digest_match })
             .prop_filter("buildable", |s| build(s).is_some())
             .boxed()
     }
@@ -192,6 +209,9 @@ impl Property for C13 {
         if spec.rule_trap {
             o.class("rule-trap");
         }
+        if spec.two_digest_match {
+            o.class("two-digest-match");
+        }
         let mut outcomes: Vec<serde_json::Value> = vec![];
         for _ in 0..r_reps {
             outcomes.push(verify_dir_once(&dir));
@@ -210,7 +230,7 @@ impl Property for C13 {
         let oks = outcomes.iter().filter(|v| v["ok"] == true).count();
         o.class(if oks == outcomes.len() { "verdict:always-ok" } else if oks == 0 { "verdict:always-err" } else { "verdict:flips" });
         if oks != 0 && oks != outcomes.len() {
-            o.fail(format!("C13/verdict-flips/{}", if spec.rule_trap { "rule-on-differing-links" } else { "other" }),
+            o.fail(format!("C13/verdict-flips/{}", if spec.two_digest_match { "two-digest-match" } else if spec.rule_trap { "rule-on-differing-links" } else { "other" }),
                 format!("{} of {} repetitions returned Ok, the others Err; first Err: {:?}", oks, outcomes.len(), outcomes.iter().find(|v| v["ok"] != true).map(|v| v["err"].clone())),
                 "the same verdict every time");
         } else if oks == outcomes.len() {
@@ -220,8 +240,8 @@ impl Property for C13 {
                 o.fail(format!("C13/summary-differs/{}", what), format!("summaries differ between repetitions: {} vs {}", first, other["summary"]), "the same summary every time");
             }
         }
-        if j.ambiguous {
-            o.nontrivial(format!("{}|{:?}|{}|{}", w.layout.steps.len(), spec.variants, spec.rule_trap, spec.step as usize % w.layout.steps.len()));
+        if j.ambiguous || spec.two_digest_match {
+            o.nontrivial(format!("{}|{:?}|{}|{}|{}", w.layout.steps.len(), spec.variants, spec.rule_trap, spec.step as usize % w.layout.steps.len(), spec.two_digest_match));
         }
         let _ = std::fs::remove_dir_all(&dir);
         o
